@@ -3,7 +3,7 @@
 cd "$(dirname "$0")"
 {
   for d in PyLib Gen Model Proofs Props Corr; do echo "-R $d LasioV"; done
-  ls PyLib/*.v Gen/*.v Model/*.v Proofs/*.v Props/*.v Corr/CaseLib.v Corr/ReadShow.v 2>/dev/null | grep -v '/Tmpg' | grep -v '/cases_' | sort
+  ls PyLib/*.v Gen/*.v Model/*.v Proofs/*.v Props/*.v Corr/CaseLib.v Corr/ReadShow.v Corr/WriteShow.v 2>/dev/null | grep -v '/Tmpg' | grep -v '/cases_' | sort
 } > _CoqProject.new
 if ! cmp -s _CoqProject.new _CoqProject; then mv _CoqProject.new _CoqProject; coq_makefile -f _CoqProject -o Makefile >/dev/null 2>&1; else rm _CoqProject.new; fi
 [ -f Makefile ] || coq_makefile -f _CoqProject -o Makefile >/dev/null 2>&1
